@@ -60,7 +60,7 @@ PROPS["C01"] = {
     "assumptions": TABLE_ASSUME,
     "tiers": {
         "quick": [{"mode": "rc", "cases": 400, "max_size": 100}],
-        "thorough": [{"mode": "rc", "cases": 12000, "max_size": 100}],
+        "thorough": [{"mode": "rc", "cases": 8000, "max_size": 100}],
     },
 }
 
@@ -210,7 +210,7 @@ PROPS["C04"] = {
     "assumptions": TABLE_ASSUME,
     "tiers": {
         "quick": [{"mode": "rc", "cases": 1500, "max_size": 100}],
-        "thorough": [{"mode": "rc", "cases": 60000, "max_size": 100}],
+        "thorough": [{"mode": "rc", "cases": 20000, "max_size": 100}],
     },
 }
 
@@ -233,7 +233,7 @@ PROPS["C05"] = {
     "assumptions": TABLE_ASSUME,
     "tiers": {
         "quick": [{"mode": "rc", "cases": 1500, "max_size": 100}],
-        "thorough": [{"mode": "rc", "cases": 60000, "max_size": 100}],
+        "thorough": [{"mode": "rc", "cases": 15000, "max_size": 100}],
     },
 }
 
@@ -340,7 +340,7 @@ PROPS["C06"] = {
     "assumptions": TABLE_ASSUME,
     "tiers": {
         "quick": [{"mode": "rc", "cases": 1000, "max_size": 100}],
-        "thorough": [{"mode": "rc", "cases": 25000, "max_size": 100}],
+        "thorough": [{"mode": "rc", "cases": 15000, "max_size": 100}],
     },
 }
 
@@ -517,7 +517,7 @@ PROPS["C07"] = {
     "assumptions": TABLE_ASSUME,
     "tiers": {
         "quick": [{"mode": "rc", "cases": 1500, "max_size": 100}],
-        "thorough": [{"mode": "rc", "cases": 60000, "max_size": 100}],
+        "thorough": [{"mode": "rc", "cases": 30000, "max_size": 100}],
     },
 }
 
